@@ -5,6 +5,7 @@ CONSTANTS
   FORWARD_WAKER = TRUE
   READY_DRAINS = TRUE
   FILTER_MODE = "none"
+  CHAIN_MODE = "none"
   MODE = "sched"
   MaxTok = 0
   MaxPairTok = 0
